@@ -18,7 +18,8 @@ VERIF = os.path.dirname(os.path.dirname(os.path.abspath(__file__)))
 REPO = os.environ.get("VERIF_REPO", "/repo")
 BUILD = os.path.join(VERIF, ".build")
 SRC = os.path.join(VERIF, "src")
-EVID = os.path.join(VERIF, "evidence")
+# evidence is only ever written for /repo itself; runs against scratch trees (VERIF_REPO) go elsewhere
+EVID = os.path.join(VERIF, "evidence") if os.path.realpath(REPO) == "/repo" else os.path.join(BUILD, "evidence-scratch")
 REPLAY = os.path.join(VERIF, "replay")
 NCPU = os.cpu_count() or 8
 
